@@ -137,7 +137,27 @@ func C15(ctx *core.Ctx) {
 	}
 	// ---- R2 ---------------------------------------------------------------------
 	tokenRecv := map[ssa.Instruction]int{} // select -> case index
-	for _, rs := range RecvSites(loop) {
+	// the loop's own receives, and those of helpers it hands one of its parameters to
+	var recvs []RecvSite
+	recvs = append(recvs, RecvSites(loop)...)
+	paramOf := map[ssa.Value]*ssa.Parameter{}
+	for _, lp := range loop.Params {
+		for a := range valueAliases(lp) {
+			paramOf[a] = lp
+		}
+	}
+	for _, g := range localCone(loop, 2) {
+		if g == loop {
+			continue
+		}
+		for _, rs := range RecvSites(g) {
+			if lp, ok := paramOf[ssax.Strip(rs.Chan)]; ok {
+				rs.Chan = lp
+				recvs = append(recvs, rs)
+			}
+		}
+	}
+	for _, rs := range recvs {
 		ch, ok := rs.Chan.Type().Underlying().(*types.Chan)
 		if !ok {
 			continue
@@ -601,22 +621,44 @@ func readerExits(ctx *core.Ctx, r *RT, loop *ssa.Function, rule string) {
 			}
 		}
 	}
-	classified := func(in ssa.Instruction) bool {
-		if tokenBody[in.Block()] {
-			return true
-		}
-		if c, ok := ssax.AsCall(in); ok && c.Static != nil {
+	var classifiedIn func(f *ssa.Function, tb map[*ssa.BasicBlock]bool, depth int) func(ssa.Instruction) bool
+	classifiedIn = func(f *ssa.Function, tb map[*ssa.BasicBlock]bool, depth int) func(ssa.Instruction) bool {
+		return func(in ssa.Instruction) bool {
+			if tb[in.Block()] {
+				return true
+			}
+			c, ok := ssax.AsCall(in)
+			if !ok || c.Static == nil {
+				return false
+			}
+			if _, isGo := in.(*ssa.Go); isGo {
+				return false
+			}
 			if c.Static == closeFn {
 				return true
 			}
-			for _, c2 := range ssax.Calls(c.Static) {
-				if c2.Static == closeFn && c.Static.Pkg == r.Pkg && len(c.Static.Blocks) == 1 {
-					return true
+			g := c.Static
+			if g.Pkg != r.Pkg || len(g.Blocks) == 0 || depth <= 0 || g == f {
+				return false
+			}
+			// an extracted part of the loop: every way through it consumes the token or closes
+			gtb := map[*ssa.BasicBlock]bool{}
+			for _, rs := range RecvSites(g) {
+				if !isSignalChan(rs.Chan.Type()) {
+					continue
+				}
+				if sel, ok := rs.Instr.(*ssa.Select); ok {
+					if b := SelectCaseBlock(sel, rs.SelIndex); b != nil {
+						gtb[b] = true
+					}
 				}
 			}
+			inner := classifiedIn(g, gtb, depth-1)
+			unclassifiedReturn := func(i ssa.Instruction) bool { return ssax.IsReturn(i) && !inner(i) }
+			return ssax.PathFrom(g, nil, unclassifiedReturn, inner) == nil
 		}
-		return false
 	}
+	classified := classifiedIn(loop, tokenBody, 2)
 	ssax.Instrs(loop, func(in ssa.Instruction) {
 		ret, ok := in.(*ssa.Return)
 		if !ok || in.Block().Comment == "recover" {
